@@ -79,11 +79,16 @@ C09PopCases(len, lags, steps, solvers, kindsets) ==
                                             => cs.m.edges[p].lag = cs.m.edges[q].lag }
 
 (* ---- C08: extrinsic inputs into integrators, alone and together with edges ---- *)
-C08Model(nIn, withEdge, len) ==
-  Mk(<<2, 0, 0>>, <<0, 0, 0>>, <<0, 0, 4>>,
-     <<<<>>, IF nIn >= 1 THEN Pows(len) ELSE <<>>, IF nIn >= 2 THEN Sq(len) ELSE <<>>>>, <<1, 2, 2>>,
+(* node 1: ramp source (kind 1); nodes 2, 3: integrators of kind 2 (merged by vectorisation), node 3 also decays.
+   mode 1: input on node 2 only; mode 2: different inputs on nodes 2 and 3; mode 3: the same input on both. *)
+C08Model(mode, withEdge, len) ==
+  Mk(<<2, 0, 0>>, <<0, 0, -2>>, <<0, 0, 4>>,
+     <<<<>>, Pows(len), IF mode = 1 THEN <<>> ELSE IF mode = 2 THEN Sq(len) ELSE Pows(len)>>, <<1, 2, 2>>,
      IF withEdge THEN <<Ed(1, 2, 2, 0), Ed(1, 3, 4, 0)>> ELSE <<>>)
-C08Cases(maxSteps) ==
-  { [m |-> C08Model(ni, we, st), cfg |-> Cfg(st, so, 0, sv, ve)] :
-        ni \in 1..2, we \in BOOLEAN, st \in 2..maxSteps, so \in 1..2, sv \in {"euler", "heun"}, ve \in BOOLEAN }
+C08Cases(lens, stores) ==
+  { [m |-> C08Model(mo, we, st), cfg |-> Cfg(st, so, 0, sv, ve)] :
+        mo \in 1..3, we \in BOOLEAN, st \in lens, so \in stores, sv \in {"euler", "heun"}, ve \in BOOLEAN } \cap
+  { cs \in [m : { C08Model(mo, we, st) : mo \in 1..3, we \in BOOLEAN, st \in lens },
+            cfg : { Cfg(st, so, 0, sv, ve) : st \in lens, so \in stores, sv \in {"euler", "heun"}, ve \in BOOLEAN }] :
+        cs.cfg.steps = Len(cs.m.ext[2]) /\ cs.cfg.steps % cs.cfg.store = 0 /\ cs.cfg.steps >= 2 * cs.cfg.store }
 =============================================================================
